@@ -454,14 +454,19 @@ fn suffix_keys_of_base(base: &str, chunk: usize, st: &mut Stats) -> Result<(), F
     // before anything is learned for the base: the user takes a non-preselected candidate of two texts WITHOUT a word
     // part (an emoticon, a lone full stop's other reading).  Whatever the engine stores for them must not count for
     // real words.
-    for noise in [";)", ":("] {
+    // (after the closing key the reported index is the caller's byte, so "non-preselected" cannot be told from the
+    // outside: both the emoji and the literal are taken once)
+    for (noise, idx) in [(";)", 0usize), (":(", 1), (";)", 1), (":(", 0)] {
         if let Some(l) = ctx.type_frontend(noise).map_err(pf)? {
-            if !l.lonely && l.cands.len() >= 2 {
-                ctx.commit(if l.sel == 0 { 1 } else { 0 }).map_err(pf)?;
+            if !l.lonely && idx < l.cands.len() {
+                ctx.commit(idx).map_err(pf)?;
                 continue;
             }
         }
         ctx.finish().map_err(pf)?;
+    }
+    if sb.parsed_selections().map(|m| m.contains_key("")).unwrap_or(false) {
+        st.label("store-has-an-entry-under-the-empty-word");
     }
     let l = ctx.type_frontend(base).map_err(pf)?.unwrap();
     // learn the last dictionary-looking candidate that is not preselected
@@ -522,6 +527,7 @@ fn all_suffix_keys(run: &Run) {
         |&(bi, chunk), st, _| suffix_keys_of_base(bases[bi], chunk, st),
     );
     run.require_label("suffix-key-checked-with-a-learned-base", 1500);
+    run.require_label("store-has-an-entry-under-the-empty-word", 8);
 }
 
 pub fn strategy() -> impl Strategy<Value = Case> {
